@@ -167,7 +167,7 @@ def _eval_many(specs):
 def search_pairs(ctx, n=None, report_key=None):
     """mutation-neighbourhood pairs; records violations; returns (requests, expected, meta) for the model stream"""
     rng = ctx.rng
-    nbase = n or (220 if ctx.tier == 'quick' else 1200)
+    nbase = n or (220 if ctx.tier == 'quick' else 900)
     bases = []
     for _ in range(nbase):
         bases.append(random_spec(rng))
@@ -311,7 +311,7 @@ def run(ctx):
                 'histories of 2-6 requests against the model cache; shipped files vs regeneration under 3 hash seeds')
 
     req, exp, meta = search_pairs(ctx)
-    corpus_collisions(ctx, 250 if ctx.tier == 'quick' else 2500)
+    corpus_collisions(ctx, 250 if ctx.tier == 'quick' else 1500)
 
     ktok = plist(sorted(key_table.items()), lambda kv: '%s %s' % (kv[0], plist(kv[1])))
     ftok = plist(ftable)
